@@ -33,8 +33,8 @@ CHECKS = {
          "laws are theorems of the specification's semantics; both sides run on the same real monitor (offline, online, pastified) and are compared pointwise, independent of Sig", "4 C18"),
  "C04": ("trace validation (TraceCt) of dense-time evaluate() results against the cell-exact dense-time semantics Dense!SigC",
          "dense-time semantics specified exactly on unit cells (integer break-points and bounds, held tail with settling extension); every recorded result must be monotone, start at the domain begin and equal SigC at every cell start and mid-point", "4 C04"),
- "C05": ("trace validation (TraceCt contract machine) of dense-time online runs under many chunkings against Dense!SigC of the whole signal, and pairwise between chunkings",
-         "the update() contract mentions no chunking at all: concatenated outputs must denote SigC of the whole fed signal wherever defined; all-at-once, one-per-update, random and staggered per-variable schedules", "4 C05"),
+ "C05": ("TLC model checking of the operational model of the dense-time online monitor (DenseOn.tla: pending-interval lists of once/historically[a,b], 13-case stream intersection, operator buffers) over every chunking / per-variable schedule (DenseOnMC, DenseOnFMC); TLC behaviours replayed on the real operator classes (TraceOp); trace validation (TraceCt) of whole monitors under many chunkings against Dense!SigC, every update() also compared with the operational model",
+        "the update() contract mentions no chunking at all: concatenated outputs must denote SigC of the whole fed signal wherever defined; all-at-once, one-per-update, random and staggered per-variable schedules; exhaustive over schedules on the model, whose call-by-call equality with the code is measured on every run", "4 C05"),
  "C08": ("Units!SamplesOf / Norm!NormAst compute the samples each written bound denotes; trace validation of 2-3 spellings per duration on offline, online, pastified and dense monitors",
          "the physical meaning of a written bound (literal, unit suffix on either end, default unit, period unit) is computed by the specification, each spelling validated against the model and spellings against each other; non-multiples must raise RTAMTException", "4 C08"),
  "C14": ("Lang!Derivable (token-level recogniser of the grammar) and Lang!StaticOK decide legitimacy of every parse() acceptance recorded from exhaustive short and random/mutated token strings",
